@@ -250,6 +250,14 @@ def mergeGroup (h : Heap) (rs : List Nat) : Heap × Except Err Nat :=
       | (h2, none) => (h2, .ok mref)
       | (h2, some e) => (h2, .error e)
 
+/-- second pass of `_unified_records()`: walk the record list, put each merged record at the first
+    occurrence of its group, keep every other record -/
+def placeMerged (mp : List (Nat × Nat)) (records : List Nat) : List Nat :=
+  records.foldl (fun (acc : List Nat) r =>
+    match mp.find? (fun p => p.1 == r) with
+    | some (_, mref) => if acc.contains mref then acc else acc ++ [mref]
+    | none => acc ++ [r]) []
+
 /-- `_unified_records()`: returns the list of record refs (originals or merged copies). -/
 def unifiedRecords (h : Heap) (c : Nat) : Heap × Except Err (List Nat) :=
   let k := h.cont c
@@ -265,11 +273,7 @@ def unifiedRecords (h : Heap) (c : Nat) : Heap × Except Err (List Nat) :=
   match mergeAll h [] groups with
   | (h1, .error e) => (h1, .error e)
   | (h1, .ok mp) =>
-    let out := k.records.foldl (fun (acc : List Nat) r =>
-      match mp.find? (fun p => p.1 == r) with
-      | some (_, mref) => if acc.contains mref then acc else acc ++ [mref]
-      | none => acc ++ [r]) []
-    (h1, .ok out)
+    (h1, .ok (placeMerged mp k.records))
 
 /-- `ProvBundle.unified()` -/
 def unifiedBundle (h : Heap) (c : Nat) : Heap × Except Err Nat :=
